@@ -20,7 +20,7 @@ for pid in ids:
             j = json.load(open(f'{src}/{m}.json'))
         except Exception:
             j = {}
-        meta = {'property': pid, 'origin': 'independent sub-agent (wave 2, against the repaired tree) given only the property text and a scratch worktree', 'summary': j.get('summary'), 'needs': j.get('needs'),
+        meta = {'property': pid, 'origin': 'independent sub-agent (later wave, against the repaired tree) given only the property text and a scratch worktree', 'summary': j.get('summary'), 'needs': j.get('needs'),
                 'agent_report': {x: j.get(x) for x in ('tests', 'demo_with_change', 'demo_without_change')}, 'verified': None, 'also_check': []}
         json.dump(meta, open(f'{d}/meta.json', 'w'), indent=1)
         print('ingested', d)
